@@ -290,11 +290,18 @@ def run_suite(pid, sname, spec, tier, seed, rundir):
     stats = os.path.join(rundir, sname + ".stats")
     model = os.path.join(rundir, sname + ".model")
     t0 = time.time()
-    cmd = [os.path.join(BUILD, "harness"), "-suite", hs, "-seed", str(seed), "-tier", tier,
+    binary = os.path.join(BUILD, "harness")
+    mismatches = []
+    if spec.get("prepare"):
+        # a suite with its own harness binary (generated Go source compiled in)
+        binary, perr = spec["prepare"](seed, tier)
+        if perr:
+            mismatches.append(dict(kind="broken", component="harness-build:" + sname, payload="",
+                                   detail=perr[-800:], suite=sname))
+    cmd = [binary, "-suite", hs, "-seed", str(seed), "-tier", tier,
            "-cases", cases, "-impl", impl, "-stats", stats]
     corpus = os.path.join(VERIF, "corpus", sname + ".cases")
     rc, out = sh(["bash", "-c", "ulimit -v 16000000; exec \"$@\"", "x"] + cmd, env=GOENV, timeout=spec.get("timeout", 7200))
-    mismatches = []
     if rc != 0:
         mismatches.append(dict(kind="broken", component="harness-run:" + sname, payload="",
                                detail="harness exited %d: %s" % (rc, out[-500:]), suite=sname))
@@ -342,8 +349,8 @@ def run_suite(pid, sname, spec, tier, seed, rundir):
     return dict(evaluations=n, nontrivial=len(nontrivial), mismatches=mismatches, samples=samples, evidence=ev)
 
 
-def harness_replay(suite, payload):
-    rc, out = sh(["bash", "-c", "ulimit -v 16000000; exec \"$@\"", "x", os.path.join(BUILD, "harness"), "-suite", suite, "-replay", payload],
+def harness_replay(suite, payload, binary=None):
+    rc, out = sh(["bash", "-c", "ulimit -v 16000000; exec \"$@\"", "x", binary or os.path.join(BUILD, "harness"), "-suite", suite, "-replay", payload],
                  env=GOENV, timeout=600)
     return out.strip()
 
@@ -471,3 +478,38 @@ def shrink_hex_last_field(payload):
             cand = hx[:2 * i] + hx[2 * (i + k):]
             yield " ".join(fields[:-1] + [cand])
         k //= 2
+
+
+# ---------------------------------------------------------------------------
+# the autogen harness: the ordinary harness plus generated struct type families
+# ---------------------------------------------------------------------------
+
+def build_autogen_harness(fams, name="autogen-harness"):
+    """Copy harness/*.go to build/autogen-src, add the generated types, build with -tags 'verif autogen'."""
+    import autogen_gen
+    src = os.path.join(BUILD, "autogen-src")
+    sh(["rm", "-rf", src])
+    os.makedirs(src, exist_ok=True)
+    hdir = os.path.join(VERIF, "harness")
+    for f in os.listdir(hdir):
+        if f.endswith(".go") or f in ("go.mod", "go.sum"):
+            sh(["cp", os.path.join(hdir, f), src])
+    autogen_gen.write_go(fams, os.path.join(src, "types_gen.go"))
+    target = os.path.join(BUILD, name)
+    rc, out = sh(["go", "build", "-tags", "verif autogen", "-o", target, "."], cwd=src, env=GOENV, timeout=1800)
+    if rc != 0:
+        return target, "the autogen harness does not build: " + out
+    return target, ""
+
+
+def prepare_autogen(seed, tier):
+    import autogen_gen
+    return build_autogen_harness(autogen_gen.families(seed, tier))
+
+
+def autogen_replay_binary(payload):
+    """Rebuild a harness holding just the family of this payload (its spec travels in the payload)."""
+    head = payload.split("|", 1)[0]
+    fam = json.loads(bytes.fromhex(head.split(":", 1)[1]).decode())
+    target, err = build_autogen_harness([fam], name="autogen-replay")
+    return None if err else target
